@@ -1372,13 +1372,13 @@ func vARHostile(h *vAR, r *vrand, nops int, tsn uint32, il bool, pair int) {
 			l.stat("ar.x.raw")
 		}
 	}
-	if !aborted && r.chance(50) {
+	if !aborted && r.chance(80) {
 		// the sequence ends with a chunk that must be answered with an ABORT
 		if st := h.a.getState(); !isDataReceiveState(st) {
 			h.do("ar setstate 3")
 		}
 		cum := h.a.payloadQueue.getcumulativeTSN()
-		if r.chance(50) {
+		if r.chance(35) {
 			h.do("ar data %d 1 0 0 BE 51 0 0 %s", cum+1, kind)
 			l.stat("ar.x.zerolen")
 		} else {
